@@ -4,29 +4,36 @@
 (* Every line is one call with its arguments and its RETURNED value:       *)
 (*   reset{limit,trlimit}  adjust{n,wu}  ondata{n,err}  onread{n,wu}       *)
 (*   newlimit{n}  trdata{n,wu}  trreset{wu}  trnewlimit{n,d}               *)
-(* All numbers are decimal digit sequences (values reach 2^32-1; TLC's     *)
-(* integers are 32-bit), compared with BigDec.  The monitor keeps the      *)
+(* All numbers are logged as two limbs <<hi, lo>> = hi * 10^6 + lo (values *)
+(* reach 2^32-1 and their sums go beyond; TLC's integers are 32-bit); the  *)
+(* limb arithmetic below is exact.  The monitor keeps the                  *)
 (* PEER's view from the handed-out values only:                            *)
 (*   view = adv - debit   (adv: initial window + window updates + new      *)
 (*   SETTINGS values; debit: bytes sent + replaced SETTINGS values), so    *)
 (*   "n <= view" is  debit + n <= adv  (no subtraction needed).            *)
+(* Clause names ending in ...AfterAdjust / ...LoweredLimit / ...Lowered    *)
+(* single out input classes listed in KNOWN_FINDINGS.jsonl.                *)
 (* Literal = 1 additionally marks the literal reading "view >= limit once  *)
 (* everything was read" (known not to hold: batched updates).              *)
 (***************************************************************************)
-EXTENDS TraceIO, BigDec, FiniteSets
+EXTENDS TraceIO, FiniteSets
 CONSTANTS Literal
-VARIABLES l, adv, debit, acc, rd, lim, dead, adjusted, cadv, cdebit, clim
-vars == <<l, adv, debit, acc, rd, lim, dead, adjusted, cadv, cdebit, clim>>
-strm == <<adv, debit, acc, rd, lim, dead, adjusted>>
+VARIABLES l, adv, debit, acc, rd, lim, dead, adjusted, lowered, cadv, cdebit, clim
+vars == <<l, adv, debit, acc, rd, lim, dead, adjusted, lowered, cadv, cdebit, clim>>
+strm == <<adv, debit, acc, rd, lim, dead, adjusted, lowered>>
 conn == <<cadv, cdebit, clim>>
-MaxWinD == <<2,1,4,7,4,8,3,6,4,7>>       \* 2^31 - 1
-Z == <<0>>
-Init == /\ l = 1 /\ InitRegs /\ adv = Z /\ debit = Z /\ acc = Z /\ rd = Z /\ lim = Z /\ dead = TRUE /\ adjusted = FALSE
+M == 1000000
+MaxWinD == <<2147, 483647>>              \* 2^31 - 1
+Z == <<0, 0>>
+Add(a, b) == <<a[1] + b[1] + (a[2] + b[2]) \div M, (a[2] + b[2]) % M>>
+Cmp(a, b) == IF a[1] # b[1] THEN (IF a[1] < b[1] THEN -1 ELSE 1)
+             ELSE IF a[2] # b[2] THEN (IF a[2] < b[2] THEN -1 ELSE 1) ELSE 0
+Init == /\ l = 1 /\ InitRegs /\ adv = Z /\ debit = Z /\ acc = Z /\ rd = Z /\ lim = Z /\ dead = TRUE /\ adjusted = FALSE /\ lowered = FALSE
         /\ cadv = Z /\ cdebit = Z /\ clim = Z
 Ev == Trace[l]
 Le(a, b) == Cmp(a, b) <= 0
 Lt(a, b) == Cmp(a, b) < 0
-Quarter(d) == DivSmall(d, 4)[1]
+Quarter(d) == <<d[1] \div 4, ((d[1] % 4) * M + d[2]) \div 4>>      \* floor(d / 4): M is a multiple of 4
 \* view > MaxWin
 OverCap(a, d) == Lt(Add(d, MaxWinD), a)
 \* ~(view >= lm - lm \div 4 /\ view > 0)
@@ -36,36 +43,37 @@ StreamChecks(capName) ==
   LET full == ~dead' /\ Cmp(acc', rd') = 0
       dl == Add(debit', lim') IN
   /\ Mark(~dead' /\ OverCap(adv', debit'), capName, l)
-  /\ Mark(full /\ (Lt(Add(adv', Quarter(lim')), dl) \/ Le(adv', debit')), "I_NoWedge", l)
+  /\ Mark(full /\ (Lt(Add(adv', Quarter(lim')), dl) \/ Le(adv', debit')), IF lowered' THEN "I_NoWedgeAfterLimitLowered" ELSE "I_NoWedge", l)
   /\ Mark(Literal = 1 /\ full /\ Lt(adv', dl), "I_Literal", l)
 ConnChecks ==
   /\ Mark(OverCap(cadv', cdebit'), "I_CapConn", l)
   /\ Mark(Wedged(cadv', cdebit', clim'), "I_NoWedgeConn", l)
 Step ==
   CASE Ev.ev = "reset" ->
-         /\ adv' = Ev.limit /\ debit' = Z /\ acc' = Z /\ rd' = Z /\ lim' = Ev.limit /\ dead' = FALSE /\ adjusted' = FALSE
+         /\ adv' = Ev.limit /\ debit' = Z /\ acc' = Z /\ rd' = Z /\ lim' = Ev.limit /\ dead' = FALSE /\ adjusted' = FALSE /\ lowered' = FALSE
          /\ cadv' = Ev.trlimit /\ cdebit' = Z /\ clim' = Ev.trlimit
     [] Ev.ev = "ondata" ->
          IF dead THEN UNCHANGED <<strm, conn>>
          ELSE LET within == Le(Add(debit, Ev.n), adv) IN
               /\ debit' = Add(debit, Ev.n) /\ dead' = (Ev.err = 1)
               /\ acc' = IF Ev.err = 1 THEN acc ELSE Add(acc, Ev.n)
-              /\ UNCHANGED <<adv, rd, lim, adjusted, conn>>
+              /\ UNCHANGED <<adv, rd, lim, adjusted, lowered, conn>>
               /\ Mark(within /\ Ev.err = 1, "I_Accept", l)
               /\ Mark(~within /\ Ev.err = 0, "I_RejectExcess", l)
     [] Ev.ev = "onread" ->
          IF dead THEN UNCHANGED <<strm, conn>>
          ELSE /\ rd' = Add(rd, Ev.n) /\ adv' = Add(adv, Ev.wu)
-              /\ UNCHANGED <<debit, acc, lim, dead, adjusted, conn>>
+              /\ UNCHANGED <<debit, acc, lim, dead, adjusted, lowered, conn>>
               /\ StreamChecks("I_Cap")
     [] Ev.ev = "adjust" ->
          IF dead THEN UNCHANGED <<strm, conn>>
          ELSE /\ adv' = Add(adv, Ev.wu) /\ adjusted' = (adjusted \/ Ev.wu # Z)
-              /\ UNCHANGED <<debit, acc, rd, lim, dead, conn>>
+              /\ UNCHANGED <<debit, acc, rd, lim, dead, lowered, conn>>
               /\ StreamChecks("I_Cap")
     [] Ev.ev = "newlimit" ->      \* SETTINGS_INITIAL_WINDOW_SIZE n replaces lim: view += n - lim
          IF dead THEN UNCHANGED <<strm, conn>>
          ELSE /\ adv' = Add(adv, Ev.n) /\ debit' = Add(debit, lim) /\ lim' = Ev.n
+              /\ lowered' = (lowered \/ Lt(Ev.n, lim))     \* a SETTINGS value below the current one (legal in HTTP/2)
               /\ UNCHANGED <<acc, rd, dead, adjusted, conn>>
               /\ StreamChecks(IF adjusted THEN "I_CapAtNewLimitAfterAdjust" ELSE "I_Cap")
     [] Ev.ev = "trdata" ->
@@ -73,7 +81,9 @@ Step ==
     [] Ev.ev = "trreset" ->
          /\ cadv' = Add(cadv, Ev.wu) /\ UNCHANGED <<cdebit, clim, strm>> /\ ConnChecks
     [] Ev.ev = "trnewlimit" ->
-         /\ cadv' = Add(cadv, Ev.d) /\ clim' = Ev.n /\ UNCHANGED <<cdebit, strm>> /\ ConnChecks
+         /\ cadv' = Add(cadv, Ev.d) /\ clim' = Ev.n /\ UNCHANGED <<cdebit, strm>>
+         /\ Mark(Lt(Ev.n, clim) /\ OverCap(cadv', cdebit'), "I_CapConnAtLoweredLimit", l)
+         /\ ConnChecks
     [] Ev.ev = "panic" -> UNCHANGED <<strm, conn>> /\ Mark(TRUE, "NoPanic", l)
 Next == l <= TLen /\ l' = l + 1 /\ Consumed(l) /\ Step
 ====
